@@ -128,7 +128,7 @@ def explain(ctx, binary, profile, suspects, opt, extra, check_stamps, year=False
     ctx.cov["explained_by_open_findings"] = ctx.cov.get("explained_by_open_findings", 0) + len(explained)
     for seed in sorted(suspects):
         c, out = suspects[seed]
-        if seed in explained:
+        if seed in explained or ctx.enough():
             continue
         # confirm from a clean start (fresh process, this single case)
         again = replay(ctx, binary, [c], opt, extra)
